@@ -1,4 +1,5 @@
 import NfpmModel.Wire
+import NfpmModel.Ar
 import NfpmModel.Spec.PlanSpec
 import NfpmModel.Spec.PayloadSpec
 import NfpmModel.Spec.ScriptSpec
@@ -276,6 +277,18 @@ def handle (op : String) (args : List String) : Except String String :=
   | "tgzstream" => do
     let (full, pad, ws) ← run1 (do let f ← pBool; let p ← pNat; let w ← pList pBytes; pure (f, p, w)) args
     pure (hex (Arc.tgzStream Arc.reviewedBufCap Arc.reviewedTgzOps (if full then .full else .cut) ws pad))
+  -- byte-level ar container (deb): model writer and proven reader
+  | "arfile" => do
+    let (mt, ms) ← run1 (do
+      let mt ← pInt
+      let ms ← pList (do let n ← pBytes; let b ← pBytes; pure ({ name := n, body := b } : Ar.Member))
+      pure (mt, ms)) args
+    pure (hex (Ar.file mt ms))
+  | "arread" => do
+    let b ← run1 pBytes args
+    match Ar.read b with
+    | none => pure "malformed"
+    | some ms => pure (s!"{ms.length}" ++ String.join (ms.map (fun m => s!" {hex m.name} {m.body.length}")))
   | _ => .error s!"unknown op {op}"
 
 partial def loop (hin : IO.FS.Stream) (hout : IO.FS.Stream) : IO Unit := do
